@@ -577,6 +577,13 @@ where
                 sponge,
                 None,
             )?;
+        if proof.len() != combined_queries.len() {
+            return Err(Error::IncorrectInputLength(format!(
+                "expected {} evaluation proofs, one per query point, but got {}",
+                combined_queries.len(),
+                proof.len()
+            )));
+        }
         let check_time =
             start_timer!(|| format!("Checking {} evaluation proofs", combined_comms.len()));
         let g = vk.g.into_group();
